@@ -273,6 +273,9 @@ func parallelFor(ctx *Ctx, n int, needOracle bool, col *Collector, fn func(o *Or
 				if i >= n || (col != nil && col.Full()) {
 					return
 				}
+				if os.Getenv("VERIF_TRACE_CASES") != "" {
+					fmt.Fprintf(os.Stderr, "case %d\n", i)
+				}
 				fn(o, i)
 			}
 		}()
